@@ -5,7 +5,7 @@
 From Coq Require Import ZArith QArith Qabs List Bool.
 From QV Require Import Model.Num Model.Rounding Model.Quantity Model.Dim Model.Registry
      Proofs.QuantityProofs Proofs.DimProofs Proofs.RegistryProofs Proofs.DirectoryProofs
-     Proofs.C02Proofs Proofs.C15Proofs.
+     Proofs.C02Proofs Proofs.C15Proofs Gen.OpsImpl Proofs.GenOpsEq.
 
 (* whatever was evaluated or declared before (any reachable directory, any
    reachable cache contents) a successful product denotes the product of the
@@ -60,6 +60,13 @@ Theorem C17_error_not_sticky : forall s x k w,
   In (k, w) (st_termmap s) -> nf_eq k (mkNf 1 (nf_dim x)) -> resolve s x <> None.
 Proof. exact resolve_defined. Qed.
 Print Assumptions C17_error_not_sticky.
+
+(* the cached unit operations ARE the code (Unit.__mul__ / __truediv__ with
+   _UNIT_OP_CACHE, re-translated on every run into Gen/OpsImpl.v) *)
+Theorem C17_model_is_translated_code : forall s u v,
+  unit_mul_impl s u v = unit_mul s u v /\ unit_div_impl s u v = unit_div s u v.
+Proof. intros s u v. split; [apply unit_mul_impl_eq | apply unit_div_impl_eq]. Qed.
+Print Assumptions C17_model_is_translated_code.
 
 (* non-vacuity: km*km before Area exists is undefined; after declaring Area it
    is defined, and evaluating it twice gives the same result *)
